@@ -14,6 +14,9 @@ NA = {
 CHECKS["C01"] = dict(cat="proof", design="§3 C01",
     text="Product/inverse/identity/to_Matrix/from_Matrix of every exposed group and three direct products are executed on CasADi symbols; homomorphism, two-sided inverse, identity, neutrality, associativity and the from_Matrix right-inverse law are proved per matrix entry as polynomial/rational identities on rational charts of the group manifolds (all elements except measure-zero chart points covered by a second chart).",
     note="trusted: CasADi SX/instruction API, IR->SMT encoder (validated per run), charts (S^3 stereographic both signs, Weierstrass angles), inverse-trig contracts, z3. Real arithmetic. Matrix-based products (DCM, Euler) and MRP from_Matrix are verified modularly (cut at from_Matrix + right-inverse lemma). Associativity of MRP-based groups is the corollary of the homomorphism law (direct identity not attempted). Euler: pitch band +-(1e-3+1e-9) excluded.")
+CHECKS["C03"] = dict(cat="proof", design="§3 C03",
+    text="log of every group executed symbolically on angle-parametrised inputs X = rep(phi, n): acos/atan nodes are resolved against the input's own angle, then log(exp x) = x (angle < pi), log X = closed-form principal logarithm (rotation part phi*n for quaternions of either sign, inner MRPs, DCMs; translation parts J_l^-1 p) and M(exp(log X)) = M(X) (incl. shadow MRPs) are proved per entry; log(e) = 0 by exact constant evaluation; Euler log by delegation to the DCM log.",
+    note="trusted: as C01/C02 plus acos(cos y)=y on [0,pi], atan(tan y)=y on (-pi/2,pi/2). Denominators on the path assumed non-zero = stated margin at the pi singularity (DCM) and SE(2) theta not a non-zero multiple of 2pi. exp(log X)=X is proved in two stages (log X = oracle; real exp of that value = X).")
 CHECKS["C04"] = dict(cat="proof", design="§3 C04",
     text="Ad/ad/bracket of every group/algebra executed symbolically; (Ad_X y)^ = M(X) y^ M(X^-1), Ad homomorphism and inverse, ad = bracket = matrix commutator, antisymmetry, Jacobi, block-diagonal direct-sum ad, and Ad_exp(x) = expm(ad_x) in closed form (Rodrigues / Barfoot quartic) are proved per entry; wrong shapes and crashes of offered operations are violations.",
     note="trusted: as C01 plus the closed forms of expm(ad) and the theorem Ad_{exp A} = expm(ad_A) (used for SE_2(3)/Euler where exp ends in from_Matrix). Operations raising NotImplementedError are out of scope as the property states.")
